@@ -3,7 +3,7 @@
     import-then-export, and the hypothesis "well-formed" covers the values the
     keepers write (codec round trip). *)
 From Teleport Require Import Base.Bytes Base.Outcome Base.AList Base.Fmt Gen.KeysGen Model.Keys Model.Genesis.
-From Teleport Require Import Proofs.Keys Proofs.KeysParse Proofs.GenesisStore Proofs.GenesisKeys Proofs.GenesisXibc Proofs.GenesisAgg.
+From Teleport Require Import Proofs.Keys Proofs.KeysParse Proofs.GenesisStore Proofs.GenesisKeys Proofs.GenesisXibc Proofs.GenesisAgg Proofs.GenesisValid.
 From Teleport Require Model.Rvesting.
 
 Section All.
@@ -47,6 +47,35 @@ Section All.
     exists st. auto.
   Qed.
 
+  (** ** The export passes the modules' own genesis validation exactly when the state satisfies [valid_state] *)
+  Variable cs_valid : CS -> bool.
+  Variable cons_type : CONS -> ctype.
+  Variable cons_valid : CONS -> bool.
+  Variable acc_addr_ok : bytes -> bool.
+  Notation validate := (validate CS CONS cs_type cs_valid cons_type cons_valid acc_addr_ok hex_to_address).
+  Notation valid_state := (valid_state CS CONS cs_unmarshal cs_type cs_valid cons_unmarshal cons_type cons_valid rel_unmarshal acc_addr_ok
+                                       tp_unmarshal hex_to_address).
+
+  Theorem export_validates_iff st g :
+    wf_state st = true -> export st = Ok g -> validate g = valid_state st.
+  Proof.
+    intros W E. unfold Genesis.wf_state in W. apply andb_true_iff in W as [WX WA].
+    unfold Genesis.export, export_with in E. fold (export_xibc CS CONS cs_unmarshal cs_type cons_unmarshal rel_unmarshal) in E.
+    destruct (export_xibc CS CONS cs_unmarshal cs_type cons_unmarshal rel_unmarshal (st_xibc st)) as [x| |] eqn:EX; try discriminate.
+    cbn [obind] in E. rewrite (export_agg_ok _ _ _ _ _ WA) in E. cbn [obind] in E. inversion E; subst g.
+    unfold Genesis.validate, Genesis.valid_state. cbn [g_client g_packet g_pairs g_rv_params].
+    replace (fst x, snd x) with x by (destruct x; reflexivity).
+    rewrite (export_xibc_validates_iff _ _ _ _ _ cs_valid _ _ cons_type cons_valid _ _ acc_addr_ok _ WX _ EX). reflexivity.
+  Qed.
+
+  (** the property's clause: a well-formed state whose entries are valid exports a genesis that passes validation *)
+  Theorem export_validates st :
+    wf_state st = true -> valid_state st = true -> exists g, export st = Ok g /\ validate g = true.
+  Proof.
+    intros W V. destruct (export_import_id st W) as [g [E _]]. exists g. split; [exact E|].
+    rewrite (export_validates_iff st g W E). exact V.
+  Qed.
+
   (** ** The values the keepers write are canonical (what [wf] asks of a value), given the codec round trip *)
   Hypothesis cs_rt : forall x, cs_unmarshal (cs_marshal x) = Some x.
   Hypothesis cons_rt : forall x, cons_unmarshal (cons_marshal x) = Some x.
@@ -58,7 +87,8 @@ Section All.
     (forall x, canonical_cons CONS cons_unmarshal cons_marshal (cons_marshal x) = true) /\
     (forall r, match rel_unmarshal (rel_marshal r) with
                | Some r' => bytes_eqb (relayer_key (r_address r)) (relayer_key (r_address r')) && bytes_eqb (rel_marshal r') (rel_marshal r)
-               | None => false end = true) /\
+                            && negb (is_nil (r_address r'))
+               | None => false end = negb (is_nil (r_address r))) /\
     (forall p, tp_denoms p <> [] ->
                match tp_unmarshal (tp_marshal p) with
                | Some p' => negb (is_nil (tp_denoms p')) && bytes_eqb (id_or_nil sha256 p) (id_or_nil sha256 p') && bytes_eqb (tp_marshal p') (tp_marshal p)
